@@ -157,6 +157,8 @@ func runWorkload(w workload) (msg string, maxInflight int32, evals int64) {
 					if d != nil {
 						if salted[ti] {
 							d["salt"], d["saltn"] = salt, saltn
+							d["whoami"] = c09WhoAmI
+							r.Set("who", salt)
 						}
 						r.SetThis(d)
 					}
@@ -167,7 +169,11 @@ func runWorkload(w workload) (msg string, maxInflight int32, evals int64) {
 							break
 						}
 					}
-					out := obs.Eval(r, context.Background(), trees[ti].Expression)
+					ctx := context.Background()
+					if salted[ti] && d != nil {
+						ctx = c09Ctx(r, saltn)
+					}
+					out := obs.Eval(r, ctx, trees[ti].Expression)
 					atomic.AddInt32(&inflight[ti], -1)
 					atomic.AddInt64(&total, 1)
 					v, e := outcomeKey(out)
@@ -233,9 +239,11 @@ func runWorkload(w workload) (msg string, maxInflight int32, evals int64) {
 				}
 				d := c08Data(er.j)
 				d["salt"], d["saltn"] = er.salt, er.saltn
+				d["whoami"] = c09WhoAmI
 				r := formula.NewRunner()
+				r.Set("who", er.salt)
 				r.SetThis(d)
-				v, e := outcomeKey(obs.Eval(r, context.Background(), fresh[er.ti].Expression))
+				v, e := outcomeKey(obs.Eval(r, c09Ctx(r, er.saltn), fresh[er.ti].Expression))
 				want = v + "|" + e
 			} else {
 				key := [2]int{er.ti, er.j}
@@ -273,6 +281,25 @@ func runWorkload(w workload) (msg string, maxInflight int32, evals int64) {
 		}
 	}
 	return "", atomic.LoadInt32(&maxSeen), atomic.LoadInt64(&total)
+}
+
+// c09WhoAmI is a host function that asks which runner is evaluating it, the way
+// RunnerFromCtx offers: the runner the caller put into the context, or none.
+func c09WhoAmI(ctx context.Context) (string, error) {
+	r := formula.RunnerFromCtx(ctx)
+	if r == nil {
+		return "nobody", nil
+	}
+	return fmt.Sprint(r.Get("who")), nil
+}
+
+// c09Ctx: every other evaluation carries its runner in the context (under the
+// key RunnerFromCtx reads), the others a bare context.
+func c09Ctx(r *formula.Runner, n int) context.Context {
+	if n%2 == 0 {
+		return context.WithValue(context.Background(), "formulaRunner", r)
+	}
+	return context.Background()
 }
 
 func init() {
@@ -400,6 +427,8 @@ func fixedWorkloadTexts() []string {
 		"[upper(salt), lpad(salt, 'x', 14), replace(salt, 'g', 'G'), toFloat(salt), toString(saltn), timeFormat(t, salt), left(salt, 2) + right(salt, 2), find(salt, 'i'), len(salt)]",
 		"[saltn * 1.5, saltn % 7, round(saltn / 3), roundBank(saltn / 2), max(saltn, 10), sqrt(saltn), exp(saltn / 1000), ln(saltn + 1), date(2000 + saltn % 50, saltn % 12 + 1, 1), toInt(saltn / 7)]",
 		"$v = saltn + 1, [$v, salt + $v, typeof salt, fnA(salt), fnSV(salt, saltn, $v), useTimezone(t, saltn % 2 == 0 ? 'UTC' : 'Asia/Kolkata')]",
+		// a host function that asks for "its" runner (RunnerFromCtx): the one its caller put into the context, or none
+		"[whoami(), salt, whoami() == salt || whoami() == 'nobody', fnC(saltn) + 0]",
 		// deep trees: a 150-term sum, 40 nested calls, a 60-step conditional ladder (many evaluator frames in flight at once)
 		"i" + strings.Repeat(" + f64 + 1", 75),
 		strings.Repeat("abs(", 40) + "0 - saltn" + strings.Repeat(")", 40),
